@@ -122,8 +122,9 @@ def decompress_results(results):
     steps = results["steps"]
     results = results["values"]
 
+    # every step reports every scenario manager of the session, also one that has no results (e.g. not registered)
     for step in steps:
-        result[step] = dict()
+        result[step] = {scenario_manager_name: dict() for scenario_manager_name in results}
 
     for scenario_manager_name in results.keys():
         for scenario_name in results[scenario_manager_name]:
